@@ -523,6 +523,29 @@ class _Normalise(ast.NodeTransformer):
             return node.args[0]
         return node
 
+    def visit_UnaryOp(self, node):
+        # `not len(x) <= N` (the limit "at most N" negated) is `len(x) > N`:
+        # one comparison of a length or an integer literal, where the two
+        # spellings cannot differ
+        self.generic_visit(node)
+        v = node.operand
+        if isinstance(node.op, ast.Not) and isinstance(v, ast.Compare) and \
+                len(v.ops) == 1:
+            def intlike(e):
+                return (isinstance(e, ast.Call) and
+                        isinstance(e.func, ast.Name) and e.func.id == 'len'
+                        ) or (isinstance(e, ast.Constant) and
+                              isinstance(e.value, int) and
+                              not isinstance(e.value, bool))
+            flip = {ast.Lt: ast.GtE, ast.LtE: ast.Gt, ast.Gt: ast.LtE,
+                    ast.GtE: ast.Lt}
+            t = type(v.ops[0])
+            if t in flip and (intlike(v.left) or intlike(v.comparators[0])):
+                return ast.copy_location(
+                    ast.Compare(left=v.left, ops=[flip[t]()],
+                                comparators=v.comparators), node)
+        return node
+
     def visit_With(self, node):
         self.generic_visit(node)
         if len(node.items) == 1 and node.items[0].optional_vars is None:
